@@ -76,7 +76,7 @@ fn drop_contract(pre: (Repr, Ghost)) {
     if g.kind == K_HEAP {
         if g.rc > 1 {
             cov!(true, "drop.shared");
-            obl!(f.old_block_intact(g.rc - 1) && f.no_alloc_calls(), "drop.shared_rc_minus_one_block_intact", "C02,C03,C08");
+            obl!(f.old_block_intact(g.rc - 1) && f.no_alloc_calls(), "drop.shared_rc_minus_one_block_intact", "C02,C03,C08,C11");
         } else {
             cov!(true, "drop.last_owner");
             obl!(
@@ -90,7 +90,7 @@ fn drop_contract(pre: (Repr, Ghost)) {
     }
 }
 
-// @harness name=drop_heap nodebug=thorough hist=yes props=C02,C03,C08 class=U tier=quick big=yes fn=Drop::drop
+// @harness name=drop_heap nodebug=thorough hist=yes props=C02,C03,C08,C11 class=U tier=quick big=yes fn=Drop::drop
 #[kani::proof]
 #[kani::stub(alloc::alloc::alloc, v_alloc)]
 #[kani::stub(alloc::alloc::dealloc, v_dealloc)]
